@@ -174,7 +174,7 @@ def panic_class(msg):
 def sanitizers(chk, rows, metas):
     """thorough: memcheck on the compressed classes + a sample (release driver, allocator monitor off)."""
     try:
-        rel = common.cargo_build('codec_driver', release=True, no_default=True)
+        rel = common.cargo_build('codec_driver', release=True, no_default=True, features=['vanilla', 'tbc', 'wrath', 'encryption'])
     except common.Inconclusive as e:
         chk.extra['valgrind'] = f'release driver did not build: {str(e)[:200]}'
         return
